@@ -91,6 +91,10 @@ def gen(tier, seed):
                 "e: int", timeout=120)
     add("print_parse_value", "c18-print-parse-value", "print_parse_value(a, 'B', (1, -2, 1))", ["pre: -1e9 < a < 1e9"],
         "printing a quantity and parsing it back gives a bit-identical value and the same unit (value realised at str(float))", "a: float", timeout=20)
+    add("parse_fresh", "c18-parse-fresh", "parse_fresh(k, m)", ["pre: 0 <= k <= 9 and 0 <= m <= 2"],
+        "reading a text is a pure function of the text: each call returns its own object, and editing a returned unit (exponents / base units) does not change what the same text reads as afterwards, through parse_units, Units(text), UnitValue(v, text) and parse_unitvalue (10 texts x 3 edits)",
+        "k: int, m: int", viol="the reading of a unit text depends on what was done to the result of an earlier reading of the same text")
+    conds[-1]["enumerate"] = True
     return "\n".join(L), conds
 
 
@@ -103,4 +107,5 @@ def run(rec):
     concrete_grammar(rec, rec.tier, rec.seed)
     text, conds = gen(rec.tier, rec.seed)
     mod = pysym.write_module("hgen_C18", text)
-    pysym.run_conditions(rec, mod, conds, default_timeout=120)
+    pysym.run_auto(rec, mod, [c for c in conds if c.get("enumerate")])
+    pysym.run_conditions(rec, mod, [c for c in conds if not c.get("enumerate")], default_timeout=120)
